@@ -108,10 +108,11 @@ Definition exec_entry (fuel s:nat) (ev:evt) (k:ekind) : M unit :=
       match s_kind (get_state mc s) with
       | KExitPt ety =>
           cb KEntry s ev (match k with EkPlain => false | _ => true end) ;;
-          (* exit_pt::forward_event forwards only if the incoming event converts to the exit point's event: user events
-             convert into each other (the generated event types do), front::none and the initial event do not - an exit
-             pseudo state re-entered through history by a completion transition or by start() forwards nothing *)
-          if Nat.leb EV_FIRST_USER (e_ty ev) then push_up (Evt ety (e_pay ev)) else ret tt
+          (* exit_pt::forward_event forwards only if the incoming event converts to the exit point's event: the events of a
+             definition convert into each other (the generated event types do, the machine's initial_event included),
+             front::none does not - an exit pseudo state re-entered through history by a completion transition forwards
+             nothing *)
+          if negb (Nat.eqb (e_ty ev) EV_NONE) then push_up (Evt ety (e_pay ev)) else ret tt
       | _ => cb KEntry s ev false      (* remove_direct_entry_event_wrapper *)
       end
   end.
